@@ -4,10 +4,10 @@ set -u
 patch=$1; prop=$2; tier=${3:-quick}
 cd /repo || exit 3
 if ! git diff --quiet; then echo "repo dirty"; exit 3; fi
-if ! git apply --3way "$patch" 2>/tmp/apply.err && ! git apply "$patch" 2>>/tmp/apply.err; then echo "APPLY-FAILED"; cat /tmp/apply.err | tail -5; git checkout -- . ; git reset -q; exit 4; fi
+if ! git apply --3way "$patch" 2>/tmp/apply.err && ! git apply "$patch" 2>>/tmp/apply.err; then echo "APPLY-FAILED"; cat /tmp/apply.err | tail -5; git reset -q --hard HEAD; exit 4; fi
 cd /verif && VERIF_EVID_SKIP=1 ./check "$prop" --tier "$tier" > /tmp/mutant.out 2>&1; rc=$?
 grep -E "VIOLATION|signature:|verdict|INCONCLUSIVE|KNOWN" /tmp/mutant.out | head -12
 echo "rc=$rc"
-cd /repo && git reset -q && git checkout -- . && git clean -fdq -e target src tests 2>/dev/null
+cd /repo && git reset -q --hard HEAD && git clean -fdq -e target src tests 2>/dev/null
 git -C /repo status --short | head -3
 exit $rc
